@@ -448,12 +448,14 @@ pub fn envs(b: &BlockSpec) -> (CfgEnv, BlockEnv) {
 
 // ------------------------------------------------------------------------------------- oracle
 
-#[derive(Clone, Debug, PartialEq, Eq)]
+#[derive(Clone, Debug)]
 pub struct BlockResult {
     /// Ok or (txid, error digest)
     pub result: Result<(), (usize, String)>,
     pub outcomes: Vec<String>,
     pub bundle: String,
+    /// oracle only: digest of the fee recipient's account just before each transaction
+    pub ben_before: Vec<String>,
 }
 
 pub fn outcome_digest(o: &TxExecutionOutcome) -> String {
@@ -510,9 +512,15 @@ pub fn oracle(db: &MemDb, b: &BlockSpec) -> BlockResult {
     // in-order execution loads the fee recipient first only in grevm; C04's statement says "with the
     // fee recipient's account loaded up front", so the oracle does the same read
     if let Err(e) = db.basic_ref(b.beneficiary) {
-        return BlockResult { result: Err((0, format!("Database({e:?})"))), outcomes, bundle: bundle_digest(&BundleState::default()) };
+        return BlockResult { result: Err((0, format!("Database({e:?})"))), outcomes, bundle: bundle_digest(&BundleState::default()), ben_before: vec![] };
     }
+    let mut ben_before = Vec::new();
     for (i, tx) in b.txs.iter().enumerate() {
+        let ben = revm::Database::basic(evm.db_mut(), b.beneficiary).ok().flatten();
+        ben_before.push(match &ben {
+            None => "acct:none".to_owned(),
+            Some(i) => format!("acct:{:x}:{}:{:x}", i.balance, i.nonce, i.code_hash),
+        });
         // explicit nonce-overflow rule (revm saturates)
         if !disable_nonce_check && tx.nonce == u64::MAX {
             let n = revm::Database::basic(evm.db_mut(), tx.caller).map(|a| a.map_or(0, |a| a.nonce));
@@ -546,7 +554,7 @@ pub fn oracle(db: &MemDb, b: &BlockSpec) -> BlockResult {
     }
     evm.db_mut().merge_transitions(BundleRetention::Reverts);
     let bundle = evm.db_mut().take_bundle();
-    BlockResult { result, outcomes, bundle: bundle_digest(&bundle) }
+    BlockResult { result, outcomes, bundle: bundle_digest(&bundle), ben_before }
 }
 
 // --------------------------------------------------------------------------------------- grevm
@@ -609,7 +617,7 @@ pub fn run_grevm(db: MemDb, b: &BlockSpec, rc: &RunCfg, strategy: Option<Box<dyn
     let (outcomes, mut state) = sched.take_result_and_state();
     let bundle = state.parallel_take_bundle(BundleRetention::Reverts);
     GrevmRun {
-        result: BlockResult { result, outcomes: outcomes.iter().map(outcome_digest).collect(), bundle: bundle_digest(&bundle) },
+        result: BlockResult { result, outcomes: outcomes.iter().map(outcome_digest).collect(), bundle: bundle_digest(&bundle), ben_before: vec![] },
         report,
         dict,
         panicked,
@@ -632,4 +640,68 @@ pub fn compare(o: &BlockResult, g: &BlockResult) -> Vec<String> {
         d.push(format!("bundle differs at line {k}: oracle `{}` grevm `{}`", ol.get(k).unwrap_or(&"<none>"), gl.get(k).unwrap_or(&"<none>")));
     }
     d
+}
+
+/// Header of a trace file: everything the Coq acceptor needs besides the events (block size, nonce
+/// rule, pre-state value of every location that occurs, slot -> reset-marker map, dictionary).
+pub fn trace_header(db: &MemDb, b: &BlockSpec, dict: &[String], workers: usize, ben_before: &[String]) -> String {
+    let mut dict: Vec<String> = dict.to_vec();
+    let mut ids: HashMap<String, usize> = dict.iter().enumerate().map(|(i, s)| (s.clone(), i)).collect();
+    let mut intern = |s: String, dict: &mut Vec<String>| -> usize {
+        if let Some(i) = ids.get(&s) {
+            return *i;
+        }
+        dict.push(s.clone());
+        ids.insert(s, dict.len() - 1);
+        dict.len() - 1
+    };
+    let mut out = format!("# n={} workers={} chk={}\n", b.txs.len(), workers, (!b.disable_nonce_check) as u8);
+    let digest = |i: Option<&AccountInfo>| match i {
+        None => "acct:none".to_owned(),
+        Some(i) => format!("acct:{:x}:{}:{:x}", i.balance, i.nonce, i.code_hash),
+    };
+    let bl = intern(format!("B:{:x}", b.beneficiary), &mut dict);
+    out.push_str(&format!("# benloc {bl}\n"));
+    for (j, d) in ben_before.iter().enumerate() {
+        let v = intern(d.clone(), &mut dict);
+        out.push_str(&format!("# benobs {j} {v}\n"));
+    }
+    for (j, tx) in b.txs.iter().enumerate() {
+        let l = intern(format!("B:{:x}", tx.caller), &mut dict);
+        out.push_str(&format!("# tx {j} {l} {}\n", tx.nonce));
+    }
+    let n0 = dict.len();
+    for i in 0..n0 {
+        let name = dict[i].clone();
+        let parts: Vec<&str> = name.split(':').collect();
+        let addr = |s: &str| -> Address { s.parse().unwrap_or_else(|_| format!("0x{s:0>40}").parse().unwrap()) };
+        match parts[0] {
+            "B" => {
+                let v = intern(digest(db.accounts.get(&addr(parts[1]))), &mut dict);
+                out.push_str(&format!("# pre {i} {v}\n"));
+            }
+            "S" => {
+                let a = addr(parts[1]);
+                let slot = U256::from_str_radix(parts[2], 16).unwrap();
+                let v = intern(format!("u:{:x}", db.storage.get(&(a, slot)).copied().unwrap_or_default()), &mut dict);
+                out.push_str(&format!("# pre {i} {v}\n"));
+                let m = intern(format!("R:{}", parts[1]), &mut dict);
+                out.push_str(&format!("# marker {i} {m}\n"));
+            }
+            "C" => {
+                let h = db.accounts.get(&addr(parts[1])).map(|a| a.code_hash).unwrap_or(KECCAK_EMPTY);
+                let v = intern(format!("code:{h:x}"), &mut dict);
+                out.push_str(&format!("# pre {i} {v}\n"));
+            }
+            _ => {}
+        }
+    }
+    for (i, name) in dict.iter().enumerate() {
+        if let Some(rest) = name.strip_prefix("acct:") {
+            let nonce = rest.split(':').nth(1).and_then(|n| n.parse::<u64>().ok()).unwrap_or(0);
+            out.push_str(&format!("# nonce {i} {nonce}\n"));
+        }
+        out.push_str(&format!("# dict {i} {name}\n"));
+    }
+    out
 }
